@@ -82,6 +82,21 @@ func C07(c *Ctx) int {
 		}
 		ps = append(ps, late...)
 	}
+	// level M: Engine.tla with the context cancelled at ANY point of every goroutine interleaving:
+	// once nothing can move, every flow, node loop, re-send goroutine and the monitor have
+	// returned (CancelLeavesNothing).  Thorough tier: also two tokens probing at one exclusive
+	// gateway (14 M states), and the pinned structure (bare inbox sends), where TLC finds the
+	// blocked flow of F28.
+	{
+		fam := []*prog.Program{gen.ParallelNM(2, 1, false), gen.GatewayTable("xor", 1, 0, 1, -1)}
+		if !c.Quick() {
+			fam = CancelFamily()
+		}
+		c.EngineRound(fam, EngineOpts{Label: "cancel", Cancel: true, MaxFlows: 8})
+		if !c.Quick() {
+			c.EngineRound(CancelFamily()[:1], EngineOpts{Label: "cancel-pinned", Cancel: true, BareSends: true, MaxFlows: 8})
+		}
+	}
 	c.Extra["distinct_nontrivial"] = len(distinct)
 	c.Extra["programs"] = len(ps)
 	c.Extra["cancel_points_per_program"] = points
